@@ -306,10 +306,26 @@ def hasMaximalDisc (p : Int) (O : Lattice) : Bool :=
   let d := traceDisc p O
   d.2 != 0 && d.1 == p * p * d.2
 
-/-- a maximal-order table entry: HNF, ring, discriminant p² -/
+/-- `d²·trd(a·b̄)` for two coordinate vectors over the common denominator `d`: `2(a0b0 + a1b1 + p·a2b2 + p·a3b3)` -/
+def bilForm (p : Int) (a b : Vec4) : Int := 2 * (a.x0 * b.x0 + a.x1 * b.x1 + p * (a.x2 * b.x2) + p * (a.x3 * b.x3))
+
+/-- Gram matrix of the reduced trace form `(x, y) ↦ trd(x·ȳ)` on the basis of `O` (exact quotients by `d²`) -/
+def traceGram (p : Int) (O : Lattice) : Mat4 :=
+  Mat4.ofFn fun i j => Int.tdiv (bilForm p (O.basis.col i) (O.basis.col j)) (O.denom * O.denom)
+
+/-- the trace form is integral on `O` (all `trd(b_i·b̄_j) ∈ ℤ`, all `N(b_i) ∈ ℤ`) and its Gram determinant is `p²`
+    (so the form is unimodular at every prime `ℓ ≠ p`) -/
+def gramOk (p : Int) (O : Lattice) : Bool :=
+  (idx4.all fun i => idx4.all fun j =>
+    Int.tmod (bilForm p (O.basis.col i) (O.basis.col j)) (O.denom * O.denom) == 0) &&
+  (idx4.all fun i => Int.tmod (bilForm p (O.basis.col i) (O.basis.col i)) (2 * (O.denom * O.denom)) == 0) &&
+  det4 (traceGram p O) == p * p
+
+/-- a maximal-order table entry: HNF, ring closed under conjugation, discriminant p², integral unimodular-away-from-p
+    trace form -/
 def maxOrderOk (p : Int) (t : Int × List (List Int)) : Bool :=
   match latOfTable t with
-  | some O => isOrderCert p O && hasMaximalDisc p O
+  | some O => isOrderCert p O && hasMaximalDisc p O && gramOk p O
   | none => false
 
 /-- `z² = -q`, `t² = -p`, `z·t = -t·z` on coordinates (denominators multiply) -/
